@@ -264,6 +264,24 @@ impl<T: RTreeElement + std::clone::Clone> RTree<T> {
         BRANCHING_FACTOR.min(level_end - child_start_index)
     }
 
+    /// verification hook: for every search node its kind (0 = leaf group, 1 = tree node),
+    /// bounding box (min lat, min lon, max lat, max lon) and first child index; plus the
+    /// level ends within the search node array
+    #[cfg(feature = "verif")]
+    pub fn verif_nodes(&self) -> (Vec<(u8, [i32; 4], usize)>, Vec<usize>, Vec<[i32; 4]>) {
+        let boxed = |b: &BoundingBox| b.verif_corners();
+        let nodes = self
+            .search_nodes
+            .iter()
+            .map(|node| match node {
+                SearchNode::LeafNode(leaf) => (0u8, boxed(&leaf.bbox), leaf.index),
+                SearchNode::TreeNode(tree) => (1u8, boxed(&tree.bbox), tree.index),
+            })
+            .collect();
+        let leaves = self.leaf_nodes.iter().map(|leaf| boxed(leaf.bbox())).collect();
+        (nodes, self.level_ends.clone(), leaves)
+    }
+
     /// Returns an iterator over elements in ascending order of distance from the given coordinate
     pub fn nearest_iter<'a>(&'a self, coordinate: &'a FPCoordinate) -> RTreeNearestIterator<'a, T> {
         RTreeNearestIterator::new(self, coordinate)
